@@ -80,7 +80,13 @@ def monitor(case, obs):
     # (exit / force-quit) or cut; counted per raise: the n-th raise is followed by at least n handled exceptions in total by the end of a quiescent run
     raise_idx = [i for i, ev, ctx in x.events() if ev[0] == "api" and ev[1] == "raise_err" and any(e[0][0] == "H" for e in x.x[:i])]
     end_depth = next((ctx.get("depth") for ev, ctx in reversed(x.x) if "depth" in ctx), None)
-    if end_depth != 1: raise_idx = []        # blocked inside a nested loop: an exception signal may be held in an enclosing level (C03)
+    if end_depth != 1: raise_idx = []
+    # a nested level that is closed takes its not-yet-drained signals with it (C03, leftover semantics): an exception raised in a level that is closed
+    # afterwards is not counted
+    def closed_after(i):
+        lv = x.x[i][1].get("levels")
+        return lv is not None and any(c.get("levels") is not None and not set(lv) <= set(c["levels"]) for e, c in x.x[i:])
+    raise_idx = [i for i in raise_idx if not closed_after(i)]        # blocked inside a nested loop: an exception signal may be held in an enclosing level (C03)
     if raise_idx and case.get("exc_handler") and obs["outcome"][0] == "blocked" and not any(ev[0] == "api" and ev[1] in ("force_quit", "raise_exit") for i, ev, ctx in x.events()):
         n_handled = sum(1 for i, ev, ctx in x.events() if ev[0] == "EXC-handled")
         if n_handled < len(raise_idx):
